@@ -43,8 +43,17 @@ def run(ck: Checker):
              'remove_gate removes exactly the validated gate', f'returns `{norm(rets[0].value) if rets else None}`', construct='remove_gate delegation')
     ck.floor('C19.REMOVE', 7)
 
-    # ---- SUBC ----
-    R = 'C19.SUBC'
+    subc_rules(ck, private)
+    ck.assume('truth-table preservation of replace_subcircuit (functional equivalence of the replacement) is not decided')
+
+
+def subc_rules(ck: Checker, private=None, R='C19.SUBC'):
+    repo = ck.repo
+    m = repo.mod(CIRCUIT)
+    if private is None:
+        eff = Effects(repo)
+        muts = eff.mutators(CIRCUIT, 'Circuit')
+        private = {n for n in muts if n.startswith('_') and not n.startswith('__')}
     fn = m.func('Circuit.replace_subcircuit')
     sub, im, om = (a.arg for a in fn.args.args[1:4])
     first_mut = _first_write_line_node(fn, private | {'rename_gate', 'make_block_from_slice', 'add_gate'})
@@ -105,4 +114,5 @@ def run(ck: Checker):
     ck.check(len(rets) == 1 and fn.body[-1] is rets[0] and l_cycle is not None and fn.body[-2].lineno == l_cycle, R, m, fn,
              'the only normal exit follows the cycle check', 'another exit bypasses check_circuit_has_no_cycles', construct='replace_subcircuit: exit')
     ck.floor(R, 11)
-    ck.assume('truth-table preservation of replace_subcircuit (functional equivalence of the replacement) is not decided')
+    from .C02 import check_sites
+    check_sites(ck, R=R, only_function='Circuit.replace_subcircuit')
